@@ -17,7 +17,10 @@ NotRunning == -2
 AwaitRand == -1
 Finished == -3
 X0 == [nextq |-> NotRunning, k |-> 0, owed |-> <<>>, sure |-> FALSE, fresh |-> FALSE,
-       stopReq |-> 0, stopWin |-> 0, grace |-> 0,
+       mustN |-> 0, mayN |-> 0,   \* StopOffers still owed for certain / possibly still to come (several incarnations can be
+                                  \* stopped before the StopOffer of the first one has left: collection window, or stop /
+                                  \* start / stop within one loop iteration)
+       stopWin |-> 0, grace |-> 0,
        maybe |-> <<>>]    \* windows of slots consumed while an optional StopOffer was pending (see Offer)
 
 MonInit(cfg) == LifeInit(cfg) @@ [x |-> [i \in Range(cfg.insts) |-> X0]]
@@ -26,6 +29,7 @@ InitKnown(m) == m.cfg.initMin = m.cfg.initMax
 NextDelay(m, k) ==    \* delay after the k-th offer of an incarnation was queued
   IF k <= m.cfg.reps THEN Pow2(k - 1) * m.cfg.base ELSE IF m.cfg.cyclic # 0 THEN m.cfg.cyclic ELSE Finished
 
+SR(x) == IF x.mustN > 0 THEN 2 ELSE IF x.mayN > 0 THEN 1 ELSE 0
 Bump(m, k) == IF k > m.cfg.reps THEN k ELSE k + 1     \* (k only matters up to reps + 1: keeps the monitor finite-state)
 \* an offer is due right now
 Fire(m, x) ==
@@ -48,11 +52,11 @@ AdvX(m, x, d) ==      \* -> <<x', failing clause or "">>
       x1    == [x EXCEPT !.owed = [j \in DOMAIN @ |-> @[j] - d], !.sure = @ \/ x.k > 0, !.fresh = FALSE,
                          !.grace = IF @ > d THEN @ - d ELSE 0,
                          !.stopWin = IF @ > d THEN @ - d ELSE 0,
-                         !.stopReq = IF x.stopReq = 1 /\ x.stopWin < d THEN 0 ELSE @,
+                         !.mayN = IF x.stopWin < d THEN 0 ELSE @,
                          !.maybe = IF x.stopWin < d THEN <<>> ELSE [j \in DOMAIN @ |-> @[j] - d]]
       r     == Roll(m, x1, d)
   IN <<r[1], IF late \/ r[2] THEN "offer_missing_at_due_time"
-             ELSE IF x.stopReq = 2 /\ x.stopWin < d THEN "stopoffer_missing" ELSE "">>
+             ELSE IF x.mustN > 0 /\ x.stopWin < d THEN "stopoffer_missing" ELSE "">>
 
 Adv(m, d) ==
   LET r == [i \in DOMAIN m.x |-> AdvX(m, m.x[i], d)]
@@ -64,7 +68,8 @@ StartX(m, x) ==
                    !.sure = FALSE, !.fresh = FALSE])
 StopX(m, x, minGrace) ==
   [x EXCEPT !.nextq = NotRunning, !.owed = <<>>, !.k = 0, !.sure = FALSE, !.fresh = FALSE,
-            !.stopReq = IF x.sure THEN 2 ELSE IF m.cfg.cyclic = 0 \/ x.k > 0 THEN 1 ELSE 0,
+            !.mustN = IF x.sure THEN @ + 1 ELSE @,
+            !.mayN = IF ~x.sure /\ (m.cfg.cyclic = 0 \/ x.k > 0) THEN @ + 1 ELSE @,
             !.stopWin = W(m), !.maybe = <<>>,
             !.grace = IF W(m) > 0 THEN W(m) + 1 ELSE minGrace]
 
@@ -96,14 +101,16 @@ Offer(m, dst, en) ==
   IF en.ttl = 0
   THEN \* the StopOffer separates the incarnations on the multicast stream: offers seen while it was
        \* only optionally expected belonged to the old incarnation after all -- their slots are given back
-       IF dst = "mc" /\ x.stopReq > 0 THEN [m EXCEPT !.x[i].stopReq = 0, !.x[i].owed = x.maybe \o @, !.x[i].maybe = <<>>]
+       IF dst = "mc" /\ SR(x) > 0
+       THEN [m EXCEPT !.x[i].mustN = IF @ > 0 THEN @ - 1 ELSE @, !.x[i].mayN = IF x.mustN = 0 THEN @ - 1 ELSE @,
+                      !.x[i].owed = x.maybe \o @, !.x[i].maybe = <<>>]
        ELSE Fail(m, IF dst = "mc" THEN "stopoffer_not_expected_or_repeated" ELSE "stopoffer_not_multicast")
   ELSE LET m1 == IF en.ttl # m.cfg.annTTL THEN Fail(m, "offer_with_wrong_ttl") ELSE m IN
        IF dst = "mc"
-       THEN IF x.stopReq = 2 /\ x.grace > 0 THEN m1            \* queued before the stop, leaves before the StopOffer
+       THEN IF SR(x) = 2 /\ x.grace > 0 THEN m1            \* queued before the stop, leaves before the StopOffer
             ELSE IF x.owed # <<>>
             THEN [m1 EXCEPT !.x[i].owed = Tail(@), !.x[i].sure = TRUE,
-                            !.x[i].maybe = IF x.stopReq = 1 THEN Append(@, Head(x.owed)) ELSE @]
+                            !.x[i].maybe = IF SR(x) = 1 THEN Append(@, Head(x.owed)) ELSE @]
             ELSE IF x.grace > 0 THEN m1
             ELSE Fail(m1, IF x.nextq = NotRunning THEN "offer_after_stop" ELSE "unscheduled_multicast_offer")
        ELSE IF x.nextq # NotRunning \/ x.grace > 0 THEN m1       \* find answers: judged by Mon_C12
@@ -117,9 +124,9 @@ Tx(m, dst, es) ==
 Idle(m0) ==
   LET m == ClApplied(m0) IN
   IF W(m) = 0 /\ \E i \in Insts(m) : m.x[i].owed # <<>> THEN Fail(m, "offer_missing_at_due_time")
-  ELSE IF W(m) = 0 /\ \E i \in Insts(m) : m.x[i].stopReq = 2 THEN Fail(m, "stopoffer_missing")
+  ELSE IF W(m) = 0 /\ \E i \in Insts(m) : m.x[i].mustN > 0 THEN Fail(m, "stopoffer_missing")
   ELSE IF \E i \in Insts(m) : m.x[i].nextq = AwaitRand THEN Fail(m, "initial_delay_not_drawn")
-  ELSE IF W(m) = 0 THEN [m EXCEPT !.x = [i \in DOMAIN @ |-> [@[i] EXCEPT !.stopReq = 0]]] ELSE m
+  ELSE IF W(m) = 0 THEN [m EXCEPT !.x = [i \in DOMAIN @ |-> [@[i] EXCEPT !.mayN = 0]]] ELSE m
 
 MonStep(m0, e) ==
   LET m == [m0 EXCEPT !.n = @ + 1] IN
